@@ -256,3 +256,77 @@ def star_point(ra0, dec0, phi, pos, eps):
 def star_points(centre, dirs, pts, eps):
     cc = [star_point(centre[0], centre[1], ph, p, eps) for ph, p in zip(dirs, pts)]
     return [c[0] for c in cc], [c[1] for c in cc]
+
+
+# ---- representations of one argument (spec/HtmIds.tla "representations of the arguments") -----------
+N1_ONLY = {"zerod", "npscalar", "pyscalar"}
+NEEDS_WHOLE = {"f4", "i4", "i8", "npfloat32", "npint"}          # the values must be whole numbers to survive the type
+
+
+def represent(values, rep, index=False):
+    """the same numbers handed over differently.  values: list of python floats (coordinates, scales) or ints
+    (index=True: htm ids / reverse indices)"""
+    base = "i8" if index else "f8"
+    a = np.array(values, dtype=base)
+    n = a.size
+    if rep == "contig":
+        return a
+    if rep == "strided":
+        big = np.full(2 * n + 1, 777, dtype=base)
+        v = big[1::2]
+        v[:] = a
+        return v
+    if rep in ("recfield12", "recfield20"):
+        dt = [("v", base), ("x", "i4")] + ([("w", "f8")] if rep == "recfield20" else [])
+        r = np.zeros(n, dtype=np.dtype(dt))                       # packed: itemsize 12 / 20, unaligned 8-byte fields
+        r["v"] = a
+        r["x"] = 7
+        v = r["v"]
+        assert v.strides == (12 if rep == "recfield12" else 20,)
+        return v
+    if rep == "reversed":
+        return a[::-1].copy()[::-1]
+    if rep == "be":
+        return a.astype(">" + base)
+    if rep in ("f4", "i4", "i8", "u8"):
+        b = a.astype(rep)
+        if not np.array_equal(b.astype(base), a):
+            raise ValueError("values do not survive %s" % rep)
+        return b
+    if rep == "list":
+        return [int(x) for x in a] if index else [float(x) for x in a]
+    if rep == "tuple":
+        return tuple(int(x) for x in a) if index else tuple(float(x) for x in a)
+    if rep == "twod_row":
+        return a.reshape(1, n)
+    if rep == "twod_col":
+        return a.reshape(n, 1)
+    if n != 1:
+        raise ValueError("%s needs one element" % rep)
+    if rep == "zerod":
+        return np.array(a[0])
+    if rep == "npscalar":
+        return a[0]
+    if rep == "pyscalar":
+        return a[0].item()
+    raise ValueError(rep)
+
+
+def represent_scalar(x, rep):
+    """one double argument of HTM.intersect"""
+    x = float(x)
+    if rep == "pyfloat":
+        return x
+    if rep == "npfloat64":
+        return np.float64(x)
+    if rep == "longdouble":
+        return np.longdouble(x)
+    if rep == "zerod":
+        return np.array(x)
+    if rep == "onearray":
+        return np.array([x])
+    if rep in ("npfloat32", "npint"):
+        if x != int(x):
+            raise ValueError("not a whole number")
+        return np.float32(x) if rep == "npfloat32" else np.int64(int(x))
+    raise ValueError(rep)
